@@ -389,7 +389,10 @@ static void *walk_main(struct thr *t)
 						found++;
 					}
 				}
-				if ((vp_rand(&t->rng) >> 44) < (uint64_t) opt_walk_delay_ppm) {
+				/* the iterator's next pointer carries the library's flag bits: bit 1 = the successor is a
+				 * bucket node, i.e. memory that a shrink unlinks and releases: delay 8x more often there */
+				uint64_t dp = (uint64_t) opt_walk_delay_ppm << (((uintptr_t) it.next & 2) ? 3 : 0);
+				if ((vp_rand(&t->rng) >> 44) < dp) {
 					/* hold the iterator (it may stand on a bucket node's successor) across a long delay */
 					vp_delay_heavy(&t->rng);
 					validate(n, "first/next traversal (after delay, same section)");
